@@ -141,11 +141,14 @@ pub fn mask1_case(sink: &mut Sink, s: &mut Stream, kind: &str, m: &MaskSpec, bud
         }
         (bad, observe_mask(&norm, &ctx), observe_mask(&not, &ctx), sel, rm.max_len(), ids)
     });
-    let inp = format!("({}, {})", coq_mask(m), coq_u64s(&probes));
+    let step = probes.len() / 24 + 1;
+    let cprobes: Vec<u64> = probes.iter().copied().step_by(step).collect();
+    let inp = format!("({}, {})", coq_mask(m), coq_u64s(&cprobes));
     sink.nontrivial(&inp);
     sink.count(&format!("mask1:{kind}"));
     match r {
         Ok((bad, Ok(norm), Ok(not), sel, maxlen, ids)) => {
+            let sel: Vec<bool> = sel.iter().copied().step_by(step).collect();
             match bad {
                 None => sink.oracle_ok(),
                 Some(w) => sink.oracle_fail(None, &format!("RowIdMask: {w}"), human.clone()),
@@ -223,6 +226,8 @@ pub fn mask2_case(sink: &mut Sink, s: &mut Stream, kind: &str, l: &MaskSpec, r: 
         None => sink.oracle_ok(),
         Some(w) => sink.oracle_fail(None, &format!("RowIdMask: {w}"), human.clone()),
     }
+    // PLANTED BREAKAGE (sanity test of the check, to be removed): record the pre-0357916 output for one corpus case
+    let or_out = if kind == "corpus:F2 all_rows | from_block({0})" { "(Ok (None, Some [(0, Partial (Pos [0]))]))".to_string() } else { or_out };
     s.push(inp, format!("({}, {})", coq_mask(&and_obs), or_out), human);
 }
 
@@ -255,6 +260,7 @@ pub fn run(args: &Args, sink: &mut Sink, rng: &mut Rng, budget: &mut FullBudget)
         "(option treemap * option treemap) * list N",
         "(option treemap * option treemap) * (option treemap * option treemap) * list bool * option N * option (list N)",
     );
+    s.shard = 800;
     // corpus: DESIGN §6 F2 inputs first
     let corpus1: Vec<(&str, MaskSpec)> = vec![
         ("corpus:F2 !all_rows", ms(None, None)),
@@ -275,7 +281,7 @@ pub fn run(args: &Args, sink: &mut Sink, rng: &mut Rng, budget: &mut FullBudget)
     for m in all_masks(&maps) {
         mask1_case(sink, &mut s, if thorough { "exhaustive-2x3" } else { "exhaustive-2x2" }, &m, budget);
     }
-    for _ in 0..args.vol(300, 5000) {
+    for _ in 0..args.vol(150, 3000) {
         let pool = Pool::rand(rng, (1, 4), (2, 10));
         let m = pool.mask(rng, false);
         mask1_case(sink, &mut s, "random", &m, budget);
@@ -291,6 +297,7 @@ pub fn run(args: &Args, sink: &mut Sink, rng: &mut Rng, budget: &mut FullBudget)
         "(option treemap * option treemap) * (option treemap * option treemap)",
         "(option treemap * option treemap) * outcome (option treemap * option treemap)",
     );
+    s.shard = 800;
     let corpus2: Vec<(&str, MaskSpec, MaskSpec)> = vec![
         ("corpus:F2 all_rows | from_block({0})", ms(None, None), ms(None, Some(p(0, &[0])))),
         ("corpus:F2 from_block({0}) | all_rows", ms(None, Some(p(0, &[0]))), ms(None, None)),
@@ -328,13 +335,13 @@ pub fn run(args: &Args, sink: &mut Sink, rng: &mut Rng, budget: &mut FullBudget)
         }
     }
     // 2 fragments x 1 offset: 9 maps (no empty bitmap), 100 masks, 10^4 ordered pairs; quick runs a
-    // seed-dependent quarter.  Thorough adds the 16-map universe with empty bitmaps (289 masks), a quarter of it.
+    // seed-dependent eighth.  Thorough adds the 16-map universe with empty bitmaps (289 masks), a quarter of it.
     let m2 = all_masks(&all_specs(&[0, 1], &[0], false));
     let mut k = 0u64;
     for l in &m2 {
         for r in &m2 {
             k += 1;
-            if !thorough && (k + args.seed) % 4 != 0 {
+            if !thorough && (k + args.seed) % 8 != 0 {
                 continue;
             }
             mask2_case(sink, &mut s, "exhaustive-2x1", l, r, budget);
@@ -352,7 +359,7 @@ pub fn run(args: &Args, sink: &mut Sink, rng: &mut Rng, budget: &mut FullBudget)
             }
         }
     }
-    for _ in 0..args.vol(400, 6000) {
+    for _ in 0..args.vol(250, 4000) {
         let pool = Pool::rand(rng, (1, 4), (2, 10));
         let l = pool.mask(rng, false);
         let r = pool.mask(rng, false);
@@ -368,6 +375,7 @@ pub fn run(args: &Args, sink: &mut Sink, rng: &mut Rng, budget: &mut FullBudget)
         "(option treemap * option treemap) * treemap",
         "(option treemap * option treemap) * (option treemap * option treemap)",
     );
+    s.shard = 800;
     let mut cases: Vec<(MaskSpec, Spec)> = vec![
         (ms(None, None), p(0, &[0, 5, 15])),
         (ms(None, None), vec![]),
@@ -375,8 +383,10 @@ pub fn run(args: &Args, sink: &mut Sink, rng: &mut Rng, budget: &mut FullBudget)
         (ms(None, None), p(0, &[])),
         (ms(Some(p(0, &[1, 2])), Some(p(0, &[1]))), p(0, &[1, 7])),
     ];
+    // every mask over 1 fragment x 1 offset (thorough: 2 fragments) against every map over 2 fragments x 1 offset
     let small = all_specs(&[0, 1], &[0], true);
-    for m in all_masks(&small) {
+    let msmall = if thorough { all_specs(&[0, 1], &[0], true) } else { all_specs(&[0], &[0], true) };
+    for m in all_masks(&msmall) {
         for t in &small {
             cases.push((m.clone(), t.clone()));
         }
@@ -425,6 +435,7 @@ pub fn run(args: &Args, sink: &mut Sink, rng: &mut Rng, budget: &mut FullBudget)
 
     // ------------------------------------------------------------------ selected_indices
     let mut s = Stream::new("selidx", REQ, "chk_selidx", "(option treemap * option treemap) * list N", "outcome (list N)");
+    s.shard = 800;
     let mut cases: Vec<(MaskSpec, Vec<u64>)> = vec![(ms(None, None), vec![1, 2]), (ms(None, None), vec![]), (ms(Some(p(0, &[1, 3])), None), vec![3, 3, 0, 1]), (ms(Some(p(0, &[1, 3])), Some(p(0, &[3]))), vec![3, 1, 1])];
     for _ in 0..args.vol(150, 2500) {
         let pool = Pool::rand(rng, (1, 3), (2, 8));
